@@ -63,42 +63,12 @@ class ClassInfo:
         return "%s:%d" % (self.module.rel, self.node.lineno)
 
 
-def _is_literal(e):
-    return isinstance(e, ast.Constant) or (isinstance(e, ast.UnaryOp) and isinstance(e.op, (ast.USub, ast.UAdd))
-                                           and isinstance(e.operand, ast.Constant))
+from .canon import canon_text, canonicalise, is_literal as _is_literal  # noqa: E402,F401
 
 
 def canon_eq(a, b, op="=="):
-    """Canonical text of `a == b` for two expression texts (same order rule as canonicalise)."""
-    def lit(t):
-        try:
-            return _is_literal(ast.parse(t, mode="eval").body)
-        except SyntaxError:
-            return False
-    la, lb = lit(a), lit(b)
-    if la and not lb:
-        a, b = b, a
-    elif la == lb and a > b:
-        a, b = b, a
-    return "%s %s %s" % (a, op, b)
-
-
-def canonicalise(tree):
-    """Order the operands of every two-operand ==/!= comparison canonically (a literal goes to the right,
-    otherwise the operand with the smaller canonical text goes left), so that rules do not depend on the
-    operand order a programmer happened to choose. Positions are kept."""
-    for n in ast.walk(tree):
-        if isinstance(n, ast.Compare) and len(n.ops) == 1 and isinstance(n.ops[0], (ast.Eq, ast.NotEq)):
-            l, r = n.left, n.comparators[0]
-            lc, rc = _is_literal(l), _is_literal(r)
-            swap = False
-            if lc and not rc:
-                swap = True
-            elif lc == rc:
-                swap = ast.unparse(l) > ast.unparse(r)
-            if swap:
-                n.left, n.comparators = r, [l]
-    return tree
+    """Canonical text of `a <op> b` for two expression texts."""
+    return canon_text("(%s) %s (%s)" % (a, op, b))
 
 
 class Module:
@@ -109,11 +79,14 @@ class Module:
         self.lines = text.split("\n")
         self.tree = canonicalise(ast.parse(text, filename=str(path)))
         self.stem = Path(rel).stem
+        self.link_parents()
+        self.globals = {}  # module-level simple assignments: name -> value node
+
+    def link_parents(self):
         for parent in ast.walk(self.tree):
             for child in ast.iter_child_nodes(parent):
                 child._parent = parent
         self.tree._parent = None
-        self.globals = {}  # module-level simple assignments: name -> value node
 
     def excerpt(self, node, ctx=0):
         lo = max(1, node.lineno - ctx)
@@ -145,6 +118,20 @@ class Repo:
                 raise AnalysisError("cannot parse %s: %s" % (rel, e))
             self.modules[rel] = mod
             self._index(mod)
+        self.inlined = []
+        if not os.environ.get("OSACA_SA_NO_INLINE"):
+            from .inline import Inliner, load_known
+
+            kf, kc = load_known()
+            inl = Inliner(self, kf, kc).run()
+            self.inlined = sorted(set(inl.expanded))
+            self.inlined_constants = sorted(inl.consts)
+            self.not_inlinable = dict(inl.rejected)
+            if inl.expanded or inl.consts:
+                for mod in self.modules.values():
+                    canonicalise(mod.tree)
+                    ast.fix_missing_locations(mod.tree)
+                    mod.link_parents()
 
     def _index(self, mod):
         for node in mod.tree.body:
